@@ -181,104 +181,156 @@ def eq_bqm_case(ctx, r, lines, checks):
 
 # ------------------------------------------------------------------------------------ equality, DQM
 
-def dqm_coef(d):
-    lin = {}
-    for v in d.variables:
-        for c, a in enumerate(d.get_linear(v)):
-            lin[(v, c)] = F(float(a))
-    quad = {}
+def dqm_adj(d):
+    """variable-level adjacency `adj_` as stored (index lists, in stored order)"""
+    a = d._cydqm.adj
+    return [[int(x) for x in a[i]] for i in range(d.num_variables())]
+
+
+def dqm_state(d):
+    """(starts, linear by global case, quadratic by global case pair, offset, adjacency) of a DQM, exact"""
     vs = list(d.variables)
-    for i, u in enumerate(vs):
-        for v in vs[i + 1:]:
-            try:
-                q = d.get_quadratic(u, v)
-            except Exception:
-                q = {}
-            for (cu, cv), a in q.items():
-                quad[((u, cu), (v, cv))] = F(float(a))
-    return lin, quad
+    starts, tot = [], 0
+    for v in vs:
+        starts.append(tot); tot += d.num_cases(v)
+    lin = {}
+    for i, v in enumerate(vs):
+        for c, a in enumerate(d.get_linear(v)):
+            lin[starts[i] + c] = F(float(a))
+    adj = dqm_adj(d)
+    quad = {}
+    for i in range(len(vs)):
+        for j in adj[i]:
+            if j < i:
+                for (ci, cj), a in d.get_quadratic(vs[i], vs[j]).items():
+                    x, y = sorted((starts[i] + ci, starts[j] + cj))
+                    quad[(x, y)] = F(float(a))
+    return starts, lin, quad, F(float(d.offset)), adj
 
 
-def dqm_energy(c, assign):
-    lin, quad = c
-    return sum(a for (v, k), a in lin.items() if assign[v] == k) + sum(a for ((u, cu), (v, cv)), a in quad.items() if assign[u] == cu and assign[v] == cv)
+def dqm_all_samples(d):
+    return list(itertools.product(*[range(d.num_cases(v)) for v in d.variables]))
 
 
-def canon_dqm(d):
-    starts, tot = {}, 0
-    for v in d.variables:
-        starts[v] = tot; tot += d.num_cases(v)
-    lin, quad = dqm_coef(d)
-    linS = ','.join(f'{starts[v] + c}={rat(a)}' for (v, c), a in lin.items())
-    qs = []
-    for ((u, cu), (v, cv)), a in quad.items():
-        x, y = sorted((starts[u] + cu, starts[v] + cv))
-        qs.append(f'{x:06d}~{y:06d}={rat(a)}')
-    return f"{linS};{','.join(sorted(qs))}"
+def dqm_energies(d, samples=None):
+    """the real `energies()` of every one-hot sample, exact"""
+    samples = dqm_all_samples(d) if samples is None else samples
+    if not samples or not d.num_variables():
+        return [F(float(d.offset))] * max(1, len(samples))
+    return [F(float(e)) for e in d.energies((np.asarray(samples, dtype=np.int64), list(d.variables)))]
 
 
-def eq_dqm_case(ctx, r, lines, checks):
-    nv = r.randint(1, 4)
-    ncases = [r.randint(1, 4) for _ in range(nv)]
-    names = r.sample(['a', 'b', 'c', 0, 1, ('t', 1)], nv)
+def adj_text(adj):
+    return '|'.join('+'.join(map(str, l)) or '-' for l in adj) or '-'
+
+
+def state_text(st):
+    starts, lin, quad, off, adj = st
+    return (','.join(f'{c}={rat(a)}' for c, a in sorted(lin.items())) or '-',
+            ','.join(f'{a}~{b}={rat(q)}' for (a, b), q in sorted(quad.items())) or '-', rat(off), adj_text(adj))
+
+
+def canon_dqm_state(d, with_energies=True):
+    starts, lin, quad, off, adj = dqm_state(d)
+    linS = ','.join(f'{c}={rat(a)}' for c, a in sorted(lin.items()))
+    quadS = ','.join(sorted(f'{a:06d}~{b:06d}={rat(q)}' for (a, b), q in quad.items()))
+    samples = dqm_all_samples(d)
+    es = ','.join(rat(e) for e in dqm_energies(d, samples)) if with_energies and len(samples) <= 4096 else '-'
+    return f'{linS};{quadS};{rat(off)};{adj_text(adj)};{es}'
+
+
+def random_dqm(r, names, ncases, dense=False):
+    """a DQM with pre-existing linear / quadratic biases and offset (small dyadics), partially overlapping adjacency;
+    returns it with the Python source that rebuilds it"""
     d = DQM()
+    src = ['d = DQM()']
     for n, v in zip(ncases, names):
-        d.add_variable(n, v)
+        d.add_variable(n, v); src.append(f'd.add_variable({n}, {v!r})')
+    for n, v in zip(ncases, names):
+        if r.random() < .5:
+            a = [float(dy(r, 8, 2)) for _ in range(n)]
+            d.set_linear(v, a); src.append(f'd.set_linear({v!r}, {a!r})')
+    for i, u in enumerate(names):
+        for j in range(i):
+            if r.random() < (.6 if dense else .35):
+                v = names[j]
+                q = {(cu, cv): float(dy(r, 8, 2)) for cu in range(ncases[i]) for cv in range(ncases[j]) if r.random() < .5}
+                if not q:
+                    q = {(0, 0): 0.0}        # adjacent, all-zero biases
+                d.set_quadratic(u, v, q); src.append(f'd.set_quadratic({u!r}, {v!r}, {q!r})')
+    if r.random() < .5:
+        o = float(dy(r, 8, 2)); d.offset = o; src.append(f'd.offset = {o!r}')
+    return d, '\n'.join(src) + '\n'
+
+
+def eq_dqm_case(ctx, r, lines, checks, directed=None):
+    nv = r.randint(1, 5)
+    ncases = [r.randint(1, 3) for _ in range(nv)]
+    names = r.sample(['a', 'b', 'c', 0, 1, ('t', 1), 'z'], nv)
+    d, build = random_dqm(r, names, ncases, dense=r.random() < .4)
+    # the constraint touches a subset of the variables (any positions: lower and higher indices stay outside)
+    sub = sorted(r.sample(range(nv), r.randint(1, nv)))
     terms = []
     for _ in range(r.choice([0, 1, 2, 3, 4, 5, 6])):
         if terms and r.random() < .25:
             i, c, _ = r.choice(terms)
         else:
-            i = r.randrange(nv); c = r.randrange(ncases[i])
+            i = r.choice(sub); c = r.randrange(ncases[i])
         terms.append((i, c, dy(r, 8, 2) if r.random() < .85 else F(0)))
-    malformed = r.random() < .06
+    if r.random() < .5:   # make sure at least two different variables of the subset appear
+        for i in sub[:3]:
+            terms.append((i, r.randrange(ncases[i]), dy(r, 6, 2)))
+    malformed = r.random() < .05
     if malformed and terms:
         i = r.randrange(nv); terms[r.randrange(len(terms))] = (i, ncases[i] + r.randint(0, 2), F(1))
     lam = r.choice([F(1), F(2), F(1, 2), F(3), F(0)]); C = dy(r, 8, 2)
-    line = f"dqmeq {','.join(map(str, ncases))} {rat(lam)} {rat(C)} " + (','.join(f'{i}:{c}={rat(a)}' for i, c, a in terms) or '-')
+    st0 = dqm_state(d)
+    lin0, quad0, off0, adj0 = state_text(st0)
+    line = (f"dqmeqs {','.join(map(str, ncases))} {rat(lam)} {rat(C)} " + (','.join(f'{i}:{c}={rat(a)}' for i, c, a in terms) or '-')
+            + f' {lin0} {quad0} {off0} {adj0}')
     call = [(names[i], c, float(a)) for i, c, a in terms]
-    src = (HDR + 'd = DQM()\n' + ''.join(f'd.add_variable({n}, {v!r})\n' for n, v in zip(ncases, names)) +
-           f'terms = {call!r}\nlam, C = {float(lam)!r}, {float(C)!r}\n'
-           'd.add_linear_equality_constraint(terms, lam, C)\nvs = list(d.variables)\n'
-           'for cases in itertools.product(*[range(d.num_cases(v)) for v in vs]):\n'
-           '    s = dict(zip(vs, cases))\n'
-           '    want = F(lam) * (sum(F(a) for v, c, a in terms if s[v] == c) + F(C))**2\n'
-           '    got = F(float(d.energy(s)))\n'
-           '    assert got == want, (s, got, want)\n')
-    before = d.copy()
+    src = (HDR + build + f'terms = {call!r}\nlam, C = {float(lam)!r}, {float(C)!r}\nvs = list(d.variables)\n'
+           'samples = list(itertools.product(*[range(d.num_cases(v)) for v in vs]))\n'
+           'e0 = [F(float(d.energy(dict(zip(vs, s))))) for s in samples]\n'
+           'd.add_linear_equality_constraint(terms, lam, C)\n'
+           'for s, before in zip(samples, e0):\n'
+           '    sm = dict(zip(vs, s))\n'
+           '    want = F(lam) * (sum(F(a) for v, c, a in terms if sm[v] == c) + F(C))**2\n'
+           '    got = F(float(d.energy(sm))) - before\n'
+           '    assert got == want, (sm, got, want)\n')
+    samples = dqm_all_samples(d)
+    e0 = dqm_energies(d, samples)
     try:
         d.add_linear_equality_constraint(iter(call) if r.random() < .3 else call, float(lam), float(C))
         ok = True
     except ValueError:
         ok = False
-    ctx.tick('dqmeq' + ('' if ok else ':raises') + (':dup' if len({(i, c) for i, c, _ in terms}) < len(terms) else ''))
-    ctx.case(('dqmeq', line), nontrivial=bool(terms), sample=None)
+    dupl = len({(i, c) for i, c, _ in terms}) < len(terms)
+    outside = [i for i in range(nv) if i not in {t[0] for t in terms}]
+    ctx.tick('dqmeq' + ('' if ok else ':raises') + (':dup' if dupl else '') + (':preexisting-adj' if any(st0[4]) else ''))
+    ctx.case(('dqmeq', line), nontrivial=bool(terms), sample=dict(ncases=ncases, terms=repr(call), lam=str(lam), C=str(C), adjacency_before=st0[4]))
     bad_case = any(c >= ncases[i] for i, c, _ in terms)
     if ok == bad_case:
         ctx.fail('property', 'DQM.add_linear_equality_constraint', 'case out of range' if bad_case else 'valid cases',
                  'accepted an out-of-range case' if ok else 'raised on valid terms', repro=src + '\nassert False')
         return
     if not ok:
-        # unchanged on raise apart from the offset the code adds first (energy shift λC² is D3-adjacent, C20's)
-        lines.append(line); checks.append(('DQM.add_linear_equality_constraint vs Pen.dqmEqTerms', 'raise', 'err', src, False))
+        lines.append(line); checks.append(('DQM.add_linear_equality_constraint vs Pen.dqmAddEq', 'raise', 'err', src, False))
         return
-    c1 = dqm_coef(d)
-    off = F(float(d.energy({v: 0 for v in d.variables}))) - dqm_energy(c1, {v: 0 for v in d.variables})
+    e1 = dqm_energies(d, samples)
     bad = None
-    for cases in itertools.product(*[range(n) for n in ncases]):
-        s = dict(zip(names, cases))
-        want = lam * (sum(a for i, c, a in terms if cases[i] == c) + C) ** 2
-        got = dqm_energy(c1, s) + off
-        if got != want:
-            bad = (s, got, want); break
+    for s, before, after in zip(samples, e0, e1):
+        want = lam * (sum(a for i, c, a in terms if s[i] == c) + C) ** 2
+        if after - before != want:
+            bad = (dict(zip(names, s)), after - before, want); break
     if bad:
-        ctx.fail('property', 'DQM.add_linear_equality_constraint', 'repeated cases' if len({(i, c) for i, c, _ in terms}) < len(terms) else 'distinct cases',
-                 f'terms {call!r} lam {lam} C {C}: at {bad[0]!r} energy {bad[1]} but lam*(sum+C)^2 = {bad[2]}', repro=src)
+        cls = ('pre-existing interactions' if any(st0[4]) else 'fresh model') + (', repeated cases' if dupl else '')
+        ctx.fail('property', 'DQM.add_linear_equality_constraint', cls,
+                 f'DQM with adjacency {st0[4]} (variables {names!r}), terms {call!r} lam {lam} C {C}: at {bad[0]!r} energies() changed by {bad[1]} but lam*(sum+C)^2 = {bad[2]}',
+                 repro=src)
     lines.append(line)
-    checks.append(('DQM.add_linear_equality_constraint vs Pen.dqmEqTerms', 'ok', f'ok {canon_dqm(d)};{rat(off)}', src, bad is not None))
+    checks.append(('DQM.add_linear_equality_constraint vs Pen.dqmAddEq', 'ok', 'ok ' + canon_dqm_state(d), src, bad is not None))
 
-
-# ------------------------------------------------------------------------------------ inequality, BQM
 
 def slack_rename(label):
     return label
@@ -378,14 +430,17 @@ def ineq_bqm_case(ctx, r, lines, checks):
 
 def ineq_dqm_case(ctx, r, lines, checks):
     method = r.choice(['log2', 'log2', 'linear', 'log10'])
-    nv = r.randint(1, 3)
-    ncases = [r.randint(1, 4) for _ in range(nv)]
+    nv = r.randint(1, 4)
+    ncases = [r.randint(1, 3) for _ in range(nv)]
     names = r.sample(['a', 'b', 'c', 0, 1], nv)
-    d = DQM()
-    for n, v in zip(ncases, names):
-        d.add_variable(n, v)
+    d, build = random_dqm(r, names, ncases) if r.random() < .7 else (None, None)
+    if d is None:
+        d = DQM(); build = 'd = DQM()\n'
+        for n, v in zip(ncases, names):
+            d.add_variable(n, v); build += f'd.add_variable({n}, {v!r})\n'
+    sub = sorted(r.sample(range(nv), r.randint(1, nv)))     # the constraint's variables; the others stay outside
     terms = []
-    for i in range(nv):
+    for i in sub:
         for c in range(ncases[i]):
             if r.random() < .7:
                 terms.append((i, c, r.choice([-5, -3, -2, -1, 1, 1, 2, 3, 4, 6, 0])))
@@ -405,26 +460,30 @@ def ineq_dqm_case(ctx, r, lines, checks):
     cross = r.random() < .1
     lam = r.choice([F(1), F(2), F(1, 2)])
     label = r.choice(['c', 'k0'])
-    line = (f"ineqdqm {method} {','.join(map(str, ncases))} {rat(lam)} {label.encode().hex()} {cst} {lb} {ub} {int(cross)} "
-            + (','.join(f'{i}:{c}={a}' for i, c, a in terms) or '-'))
+    st0 = dqm_state(d)
+    lin0, quad0, off0, adj0 = state_text(st0)
+    line = (f"ineqdqms {method} {','.join(map(str, ncases))} {rat(lam)} {label.encode().hex()} {cst} {lb} {ub} {int(cross)} "
+            + (','.join(f'{i}:{c}={a}' for i, c, a in terms) or '-') + f' {lin0} {quad0} {off0} {adj0}')
     call = [(names[i], c, a) for i, c, a in terms]
-    src = (HDR + 'd = DQM()\n' + ''.join(f'd.add_variable({n}, {v!r})\n' for n, v in zip(ncases, names)) +
-           f'terms = {call!r}\nlam, c, lb, ub = {float(lam)!r}, {cst}, {lb}, {ub}\nvs = list(d.variables)\n'
+    src = (HDR + build + f'terms = {call!r}\nlam, c, lb, ub = {float(lam)!r}, {cst}, {lb}, {ub}\nvs = list(d.variables)\n'
            'val = lambda s: sum(a for v, k, a in terms if s[v] == k) + c\n'
+           'orig = list(itertools.product(*[range(d.num_cases(v)) for v in vs]))\n'
+           'e0 = {t: F(float(d.energy(dict(zip(vs, t))))) for t in orig}\n'
            'try:\n'
            f'    sl = d.add_linear_inequality_constraint(terms, lam, {label!r}, constant=c, lb=lb, ub=ub, slack_method={method!r}, cross_zero={cross})\n'
            'except ValueError:\n'
-           '    assert not any(lb <= val(dict(zip(vs, t))) <= ub for t in itertools.product(*[range(d.num_cases(v)) for v in vs])), "refused a feasible constraint"\n'
+           '    assert not any(lb <= val(dict(zip(vs, t))) <= ub for t in orig), "refused a feasible constraint"\n'
            '    raise SystemExit(0)\n'
            'ss = [v for v in d.variables if v not in vs]\n'
-           'for t in itertools.product(*[range(d.num_cases(v)) for v in vs]):\n'
+           'for t in orig:\n'
            '    s = dict(zip(vs, t))\n'
-           '    m = min(F(float(d.energy({**s, **dict(zip(ss, u))}))) for u in itertools.product(*[range(d.num_cases(v)) for v in ss]))\n'
+           '    m = min(F(float(d.energy({**s, **dict(zip(ss, u))}))) for u in itertools.product(*[range(d.num_cases(v)) for v in ss])) - e0[t]\n'
            '    assert (m == 0) if lb <= val(s) <= ub else (m >= F(lam)), (s, val(s), m)\n')
 
     def val(cases):
         return sum(a for i, c, a in terms if cases[i] == c) + cst
-    allc = list(itertools.product(*[range(n) for n in ncases]))
+    allc = dqm_all_samples(d)
+    e0 = dict(zip(allc, dqm_energies(d, allc)))
     anyfeas = any(lb <= val(t) <= ub for t in allc)
     try:
         with warnings.catch_warnings():
@@ -433,7 +492,7 @@ def ineq_dqm_case(ctx, r, lines, checks):
         raised = False
     except ValueError:
         raised = True
-    ctx.tick(f'ineqdqm:{method}' + (':raises' if raised else '') + (':cross' if cross else ''))
+    ctx.tick(f'ineqdqm:{method}' + (':raises' if raised else '') + (':cross' if cross else '') + (':preexisting-adj' if any(st0[4]) else ''))
     ctx.case(('ineqdqm', line), nontrivial=not raised, sample=dict(method=method, terms=repr(call), constant=cst, lb=lb, ub=ub))
     site = 'DQM.add_linear_inequality_constraint'
     cls = f'slack_method={method}' + (', cross_zero=True' if cross else '')
@@ -445,30 +504,30 @@ def ineq_dqm_case(ctx, r, lines, checks):
         out = 'raise'
     else:
         svars = [v for v in d.variables if v not in names]
-        c1 = dqm_coef(d)
-        zero = {v: 0 for v in d.variables}
-        off = F(float(d.energy(zero))) - dqm_energy(c1, zero)
         sizes = [d.num_cases(v) for v in svars]
-        if not cross and math.prod(sizes) * len(allc) <= 60000:
+        full = dqm_all_samples(d)
+        if not cross and len(full) <= 60000:
+            en = dict(zip(full, dqm_energies(d, full)))
             for t in allc:
-                s = dict(zip(names, t))
-                m = min(dqm_energy(c1, {**s, **dict(zip(svars, u))}) + off for u in itertools.product(*[range(k) for k in sizes]))
+                m = min(en[t + u] for u in itertools.product(*[range(k) for k in sizes])) - e0[t]
                 f = lb <= val(t) <= ub
                 if (m != 0) if f else (m < lam):
                     bad = True
-                    ctx.fail('property', site, cls, f'terms {call!r} c={cst} lb={lb} ub={ub} lam={lam}: at {s!r} (sum+c={val(t)}, feasible={f}) the penalty minimised over slack is {m}',
+                    # a wrong energy difference that is not the D17 pattern is the equality constraint underneath
+                    s_ = dict(zip(names, t))
+                    ctx.fail('property', site, cls, f'DQM adjacency before {st0[4]}, terms {call!r} c={cst} lb={lb} ub={ub} lam={lam}: at {s_!r} (sum+c={val(t)}, feasible={f}) the penalty minimised over slack is {m}',
                              repro=src, detail=dict(slack=repr(sl)))
                     break
-        if not sl and not svars and off == 0 and all(a == 0 for a in c1[0].values()):
+        if not sl and not svars and dqm_state(d) == st0:
             out = 'skip'
         else:
             sv = []
             for v in svars:
                 cs = '+'.join(f'{k}={a}' for (w, k, a) in sl if w == v)
                 sv.append(f'{v.encode().hex()}:{d.num_cases(v)}:{cs}')
-            out = 'ok ' + ','.join(sv) + ';' + canon_dqm(d) + ';' + rat(off)
+            out = 'ok ' + ','.join(sv) + ';' + canon_dqm_state(d)
     lines.append(line)
-    checks.append(('DQM.add_linear_inequality_constraint vs Pen.ineqPlan/dqmSlack', cls, out, src, bad))
+    checks.append(('DQM.add_linear_inequality_constraint vs Pen.ineqPlan/dqmSlack/dqmAddEq', cls, out, src, bad))
 
 
 # ------------------------------------------------------------------------------------ binary_encoding
